@@ -7,81 +7,15 @@ import HctlModel.Glue
 namespace Hctl.C16
 open Hctl Hctl.Archive
 
-/-- labels that can be reloaded: the last path component is not empty (the label is neither empty nor ends in '/');
-labels with inner separators (`dir/name`) are fine — they become entries in a sub-directory of the archive -/
-def ValidLabel (l : List Char) : Prop := l ≠ [] ∧ l.getLast? ≠ some '/'
-
-theorem splitLastDot_none {b : List Char} (h : '.' ∉ b) : splitLastDot b = none := by
-  induction b with
-  | nil => rfl
-  | cons c cs ih =>
-    simp only [List.mem_cons, not_or] at h
-    simp [splitLastDot, ih h.2, Ne.symm h.1]
-
-theorem splitLastDot_app (a b : List Char) (h : '.' ∉ b) : splitLastDot (a ++ '.' :: b) = some (a, b) := by
-  induction a with
-  | nil => simp [splitLastDot, splitLastDot_none h]
-  | cons x a ih => simp [splitLastDot, ih]
-
-theorem takeWhile_app_all {p : Char → Bool} : ∀ (a b : List Char), (∀ x ∈ a, p x = true) →
-    (a ++ b).takeWhile p = a ++ b.takeWhile p := by
-  intro a
-  induction a with
-  | nil => intro b _; rfl
-  | cons c cs ih =>
-    intro b h
-    simp only [List.cons_append, List.takeWhile_cons, h c (by simp), if_true]
-    rw [ih b (fun x hx => h x (by simp [hx]))]
-
-/-- the file name of `<label>.bdd` is the last component of the label followed by `.bdd` -/
-theorem fileName_bdd (l : List Char) : fileName (l ++ ['.', 'b', 'd', 'd']) = fileName l ++ ['.', 'b', 'd', 'd'] := by
-  unfold fileName
-  have : (l ++ ['.', 'b', 'd', 'd']).reverse = ['d', 'd', 'b', '.'] ++ l.reverse := by simp
-  rw [this, takeWhile_app_all _ _ (by decide)]
+/-- an entry `<label>.bdd` strips back to the label — for EVERY label (empty, nested, ending in '/', containing dots) -/
+theorem bdd_entry_reloads (l : List Char) : stripBdd (l ++ ['.', 'b', 'd', 'd']) = some l := by
+  unfold stripBdd
   simp
-
-theorem fileName_nonempty (l : List Char) (h : ValidLabel l) : fileName l ≠ [] := by
-  unfold fileName
-  obtain ⟨h1, h2⟩ := h
-  cases hr : l.reverse with
-  | nil => simp at hr; exact absurd hr h1
-  | cons c cs =>
-    have hl : l.getLast? = some c := by
-      have : l = (c :: cs).reverse := by rw [← hr, List.reverse_reverse]
-      rw [this]; simp
-    have hc : c ≠ '/' := fun e => h2 (by rw [hl, e])
-    simp [List.takeWhile_cons, hc]
-
-/-- an entry `<label>.bdd` with a valid label has extension `bdd` and strips back to the label -/
-theorem bdd_entry_reloads (l : List Char) (h : ValidLabel l) :
-    extension (l ++ ['.', 'b', 'd', 'd']) = some ['b', 'd', 'd'] ∧ stripBdd (l ++ ['.', 'b', 'd', 'd']) = some l := by
-  constructor
-  · unfold extension
-    rw [fileName_bdd]
-    have hf := fileName_nonempty l h
-    have hne : (fileName l ++ ['.', 'b', 'd', 'd']).isEmpty = false := by cases fileName l <;> simp
-    have hsp : splitLastDot (fileName l ++ ['.', 'b', 'd', 'd']) = some (fileName l, ['b', 'd', 'd']) :=
-      splitLastDot_app (fileName l) ['b', 'd', 'd'] (by decide)
-    have hl : (fileName l).isEmpty = false := by
-      cases hfl : fileName l with
-      | nil => exact absurd hfl hf
-      | cons _ _ => rfl
-    dsimp only
-    rw [hsp]
-    simp only [hne, hl, Bool.false_eq_true, if_false]
-  · unfold stripBdd
-    simp
-
-/-- nested labels are valid: `backup/attr` reloads as `backup/attr` -/
-example : ValidLabel "backup/attr".toList := by unfold ValidLabel; decide
-
-/-- the empty label and labels ending in '/' are written but never reloaded (see known findings) -/
-theorem empty_label_not_reloaded : extension ([] ++ ['.', 'b', 'd', 'd']) = none := by decide
-theorem slash_label_not_reloaded : extension (['a', '/'] ++ ['.', 'b', 'd', 'd']) = none := by decide
 
 /-- the other two entries are never mistaken for sets -/
 theorem nonbdd_ignored :
-    extension ['m', 'o', 'd', 'e', 'l', '.', 'a', 'e', 'o', 'n'] ≠ some ['b', 'd', 'd'] ∧ extension ['f', 'o', 'r', 'm', 'u', 'l', 'a', 'e', '.', 't', 'x', 't'] ≠ some ['b', 'd', 'd'] := by
+    stripBdd ['m', 'o', 'd', 'e', 'l', '.', 'a', 'e', 'o', 'n'] = none ∧
+    stripBdd ['f', 'o', 'r', 'm', 'u', 'l', 'a', 'e', '.', 't', 'x', 't'] = none := by
   decide
 
 theorem load_cons {α : Type} (deser : List Char → α) (e : List Char × List Char) (es : List (List Char × List Char)) :
@@ -93,19 +27,18 @@ theorem load_append {α : Type} (deser : List Char → α) (a b : List (List Cha
     load deser (a ++ b) = load deser a ++ load deser b := by
   unfold load; exact List.filterMap_append
 
-theorem load_nonbdd {α : Type} (deser : List Char → α) (n c : List Char) (h : extension n ≠ some ['b', 'd', 'd']) :
+theorem load_nonbdd {α : Type} (deser : List Char → α) (n c : List Char) (h : stripBdd n = none) :
     load deser [(n, c)] = [] := by
-  unfold load; simp [List.filterMap_cons, h]
+  unfold load; simp [h]
 
-theorem load_bdd {α : Type} (deser : List Char → α) (l c : List Char) (h : ValidLabel l) :
+theorem load_bdd {α : Type} (deser : List Char → α) (l c : List Char) :
     load deser [(l ++ ['.', 'b', 'd', 'd'], c)] = [(l, deser c)] := by
-  have hl := bdd_entry_reloads l h
-  unfold load; simp [List.filterMap_cons, hl.1, hl.2]
+  unfold load; simp [bdd_entry_reloads l]
 
-/-- MAIN: reading back what `build_result_archive` wrote yields, under the same labels, the sets written -/
+/-- MAIN: reading back what `build_result_archive` wrote yields, under the same labels, the sets written — for every
+label → set list, whatever the labels look like (since the repair of `load_bdd_bundle`, see known_findings.json) -/
 theorem bundle_roundtrip {α : Type} (ser : α → List Char) (deser : List Char → α)
-    (hrt : ∀ s, deser (ser s) = s) (results : List (List Char × α)) (model : List Char) (formulae : List (List Char))
-    (hv : ∀ e ∈ results, ValidLabel e.1) :
+    (hrt : ∀ s, deser (ser s) = s) (results : List (List Char × α)) (model : List Char) (formulae : List (List Char)) :
     load deser (entries ser results model formulae) = results := by
   unfold entries
   rw [load_append, load_cons, load_nonbdd deser _ _ nonbdd_ignored.1, load_nonbdd deser _ _ nonbdd_ignored.2]
@@ -113,9 +46,12 @@ theorem bundle_roundtrip {α : Type} (ser : α → List Char) (deser : List Char
   induction results with
   | nil => rfl
   | cons e rs ih =>
-    rw [List.map_cons, load_cons, load_bdd deser e.1 _ (hv e (by simp)), hrt,
-      ih (fun e' he => hv e' (by simp [he]))]
+    rw [List.map_cons, load_cons, load_bdd deser e.1 _, hrt, ih]
     rfl
+
+/-- non-vacuity of the hard cases: the empty label and a label ending in '/' come back -/
+example : load (fun c => c) (entries (fun c => c) [([], ['x']), (['a', '/'], ['y'])] [] []) = [([], ['x']), (['a', '/'], ['y'])] := by
+  decide
 
 /-! the formula list: entry i corresponds to line i -/
 
@@ -164,8 +100,6 @@ theorem formulae_lines (fs : List (List Char)) (h : ∀ f ∈ fs, '\n' ∉ f ∧
   rw [lines_unlines fs h]
 
 /-! Non-vacuity -/
-example : ValidLabel ['f', 'o', 'r', 'm', 'u', 'l', 'a', '-', '0'] ∧ ValidLabel ['a', '.', 'b'] ∧ ValidLabel ['9', 'x', '-', 'y'] := by
-  refine ⟨⟨by decide, by decide⟩, ⟨by decide, by decide⟩, ⟨by decide, by decide⟩⟩
 example : load (α := List Char) id (entries id [(['s', '1'], ['X'])] ['m'] [['f']])
     = [(['s', '1'], ['X'])] := by decide
 
